@@ -74,13 +74,17 @@ class RecSandbox(core.Sandbox):
         super().__init__(world)
         self.ctx = ctx
 
-    def run(self, argv, plan=None, cwd="", tz="UTC", timeout=60.0, config=None):
+    def run(self, argv, plan=None, cwd="", tz="UTC", timeout=60.0, config=None, stdin_text=None):
         plan = plan or {}
-        res = super().run(argv, plan, cwd, tz, timeout, config)
+        res = super().run(argv, plan, cwd, tz, timeout, config, stdin_text)
         if config is not None or plan.get("config"):
             self.ctx.bump("user_configuration_file", configured=1, fired=1)
         if plan.get("nofile"):
             self.ctx.bump("descriptor_limit", configured=1, fired=1)
+        if plan.get("aslimit"):
+            self.ctx.bump("address_space_limit", configured=1, fired=1)
+        if stdin_text is not None:
+            self.ctx.bump("interactive_session", configured=1, fired=1)
         ctx = self.ctx
         ctx.execs += 1
         ctx.wall_exec += res.wall
@@ -275,7 +279,7 @@ def generic_shrinks(case):
                 c = copy.deepcopy(case)
                 getp(c, ref)[key] = []
                 yield c
-        for key in ("out_accept", "config", "nofile"):
+        for key in ("out_accept", "config", "nofile", "aslimit"):
             if p.get(key):
                 c = copy.deepcopy(case)
                 getp(c, ref)[key] = None
